@@ -18,6 +18,7 @@ import (
 	"net/http/httptest"
 	"runtime"
 	"sort"
+	"strings"
 	"sync"
 	"testing"
 	"time"
@@ -35,6 +36,7 @@ type c15Client struct {
 	ID    string   `json:"id"`
 	Subs  []c15Sub `json:"subs"`
 	Ghost bool     `json:"ghost,omitempty"` // subscribed in the trie, not connected to this broker
+	Pers  bool     `json:"pers,omitempty"`  // connects with cleanSession=false (its session is persisted; see event "resume")
 }
 
 type c15Event struct {
@@ -53,6 +55,7 @@ type c15Event struct {
 	Full    []string `json:"full,omitempty"` // clients whose writeCh is full at this instant (QoS0 messages only)
 	C       string   `json:"c,omitempty"`
 	ID      int      `json:"id,omitempty"`
+	N       int      `json:"n,omitempty"` // mn: the QoS0 message is sent N times (queues drained after each send)
 }
 
 type c15Pub struct {
@@ -72,6 +75,7 @@ type c15Step struct {
 	Status int                 `json:"st"`
 	Out    map[string][]string `json:"out,omitempty"` // client -> "id:qos:payload" of PUBLISH packets queued
 	Acks   []int               `json:"acks,omitempty"` // pub: packet ids of the PUBACKs as encoded when the queue is written out
+	Cnt    map[string]int      `json:"cnt,omitempty"`  // mn: client -> number of PUBLISH packets queued over the N sends (out = first and last)
 	Pipe   []c15wPipe          `json:"pipe,omitempty"` // pub: calls seen by the Publish pipeline
 	Note   string              `json:"note,omitempty"`
 }
@@ -107,10 +111,10 @@ func c15GetBroker() *Broker {
 }
 
 // c15Connect registers a connected client whose session has no background resend goroutine.
-func c15Connect(b *Broker, cid string, limit int) *Client {
+func c15Connect(b *Broker, cid string, limit int, persistent ...bool) *Client {
 	connect := packets.NewControlPacket(packets.Connect).(*packets.ConnectPacket)
 	connect.ClientIdentifier = cid
-	connect.CleanSession = true
+	connect.CleanSession = !(len(persistent) > 0 && persistent[0])
 	var lim *RateLimit
 	if limit > 0 {
 		lim = &RateLimit{RequestRate: limit, TimePeriod: 1000}
@@ -124,6 +128,95 @@ func c15Connect(b *Broker, cid string, limit int) *Client {
 	b.clients[cid] = c
 	b.Unlock()
 	return c
+}
+
+// c15StoreIdle: every Session.store() issued so far has reached the storage (no sender goroutine of
+// `go func(){ s.storeCh <- ss }()` left, SessionManager.doStore parked in its select). Model-free.
+func c15StoreIdle() bool {
+	buf := make([]byte, 1<<16)
+	for {
+		n := runtime.Stack(buf, true)
+		if n < len(buf) {
+			buf = buf[:n]
+			break
+		}
+		buf = make([]byte, 2*len(buf))
+	}
+	for _, g := range strings.Split(string(buf), "\n\n") {
+		if strings.Contains(g, "mqttproxy.(*Session).store.func1") || strings.Contains(g, "created by github.com/megaease/easegress/pkg/object/mqttproxy.(*Session).store") {
+			return false
+		}
+		if strings.Contains(g, "\ngithub.com/megaease/easegress/pkg/object/mqttproxy.(*SessionManager).doStore(") {
+			hdr := g
+			if i := strings.Index(g, "\n"); i >= 0 {
+				hdr = g[:i]
+			}
+			if !strings.Contains(hdr, "[select") {
+				return false
+			}
+		}
+	}
+	return true
+}
+
+func c15WaitStoreIdle() bool {
+	deadline := time.Now().Add(10 * time.Second)
+	for !c15StoreIdle() {
+		if time.Now().After(deadline) {
+			return false
+		}
+		time.Sleep(200 * time.Microsecond)
+	}
+	return true
+}
+
+// c15Resume: the persistent client's connection ends normally (closeAndDelSession: the local session object is
+// dropped, its subscriptions leave the TopicManager; the persisted copy stays) and the client reconnects with
+// cleanSession=false without re-subscribing: the session is rebuilt from the PERSISTED copy
+// (SessionManager.store.get + Session.decode, as newSessionFromYaml does — but without starting the background
+// resend goroutine, ticks stay events of the scenario) and, as in Broker.handleConn, stored again
+// (updateEGName) and its subscriptions are registered from `allSubscribes()`.
+func c15Resume(b *Broker, old *Client, limit int) (*Client, string) {
+	cid := old.info.cid
+	if !c15WaitStoreIdle() {
+		return old, "store-not-idle"
+	}
+	old.closeAndDelSession()
+	b.removeClient(cid)
+	connect := packets.NewControlPacket(packets.Connect).(*packets.ConnectPacket)
+	connect.ClientIdentifier = cid
+	connect.CleanSession = false
+	var lim *RateLimit
+	if limit > 0 {
+		lim = &RateLimit{RequestRate: limit, TimePeriod: 1000}
+	}
+	c := newClient(connect, b, nil, lim)
+	s := &Session{}
+	s.init(b.sessMgr, b, connect)
+	note := ""
+	if str, err := b.sessMgr.store.get(sessionStoreKey(cid)); err == nil && str != nil {
+		if s.decode(*str) != nil {
+			note = "stored-session-undecodable"
+		}
+	} else {
+		note = "no-stored-session"
+	}
+	b.sessMgr.sessionMap.Store(cid, s)
+	c.session = s
+	b.Lock()
+	b.clients[cid] = c
+	b.Unlock()
+	c.session.updateEGName(b.egName, b.name)
+	topics, qoss, _ := c.session.allSubscribes()
+	if len(topics) > 0 {
+		if b.topicMgr.subscribe(topics, qoss, cid) != nil {
+			note = "resubscribe-failed"
+		}
+	}
+	if !c15WaitStoreIdle() {
+		note = "store-not-idle"
+	}
+	return c, note
 }
 
 // c15Drain empties the client's outbound queue the way writeLoop does: every packet is *encoded*
@@ -207,12 +300,14 @@ func c15ExecOnce(in c15Input) c15Obs {
 	clients := map[string]*Client{}
 	order := []string{}
 	defer func() {
+		c15WaitStoreIdle()
 		for cid, c := range clients {
 			b.Lock()
 			b.clients[cid] = c
 			b.Unlock()
 			c.closeAndDelSession()
 			b.removeClient(cid)
+			b.sessMgr.store.delete(sessionStoreKey(cid))
 		}
 	}()
 	for _, cl := range in.Clients {
@@ -234,7 +329,10 @@ func c15ExecOnce(in c15Input) c15Obs {
 		if _, dup := clients[cl.ID]; dup {
 			continue
 		}
-		c := c15Connect(b, cl.ID, in.Limit)
+		if cl.Pers {
+			b.sessMgr.store.delete(sessionStoreKey(cl.ID)) // nothing left over from an earlier scenario
+		}
+		c := c15Connect(b, cl.ID, in.Limit, cl.Pers)
 		clients[cl.ID] = c
 		order = append(order, cl.ID)
 		if len(topics) > 0 {
@@ -243,6 +341,9 @@ func c15ExecOnce(in c15Input) c15Obs {
 			p.Topics = topics
 			p.Qoss = qoss
 			c.processPacket(p)
+			if cl.Pers {
+				c15WaitStoreIdle() // two Session.store() calls in flight may reach the storage in either order
+			}
 			c15DrainPublishes(c)
 		}
 	}
@@ -301,6 +402,37 @@ func c15ExecOnce(in c15Input) c15Obs {
 				}
 			}
 			st.Out = collect()
+		case "mn":
+			// the same QoS0 message N times through Broker.sendMsgToClient; every client's queue is written
+			// out after each send (so nothing is dropped for a full queue). Lets a history consume many
+			// packet ids (uint16 wrap-around of Session.nextID) with a short input.
+			n := ev.N
+			if n < 0 {
+				n = 0
+			}
+			if n > 70000 {
+				n = 70000
+			}
+			st.Cnt = map[string]int{}
+			st.Out = map[string][]string{}
+			last := map[string]string{}
+			for k := 0; k < n; k++ {
+				b.sendMsgToClient(nil, ev.Topic, []byte(ev.Payload), 0)
+				for _, cid := range order {
+					for _, pk := range c15DrainPublishes(clients[cid]) {
+						if st.Cnt[cid] == 0 {
+							st.Out[cid] = []string{pk}
+						}
+						st.Cnt[cid]++
+						last[cid] = pk
+					}
+				}
+			}
+			for cid, pk := range last {
+				if st.Cnt[cid] > 1 {
+					st.Out[cid] = append(st.Out[cid], pk)
+				}
+			}
 		case "a":
 			if c, ok := clients[ev.C]; ok {
 				p := packets.NewControlPacket(packets.Puback).(*packets.PubackPacket)
@@ -322,6 +454,9 @@ func c15ExecOnce(in c15Input) c15Obs {
 					p.Qoss = append(p.Qoss, byte(s.Q))
 				}
 				c.processPacket(p)
+				if !c.session.cleanSession() {
+					c15WaitStoreIdle()
+				}
 			}
 			st.Out = collect()
 		case "unsub":
@@ -330,6 +465,9 @@ func c15ExecOnce(in c15Input) c15Obs {
 				p.MessageID = 3
 				p.Topics = append([]string{}, ev.Fs...)
 				c.processPacket(p)
+				if !c.session.cleanSession() {
+					c15WaitStoreIdle()
+				}
 			}
 			st.Out = collect()
 		case "disc":
@@ -374,6 +512,17 @@ func c15ExecOnce(in c15Input) c15Obs {
 				st.Pipe = append([]c15wPipe{}, c15Rec.calls[before:]...)
 				c15Rec.mu.Unlock()
 			}
+		case "resume":
+			if c, ok := clients[ev.C]; ok && !c.session.cleanSession() {
+				// nothing is queued for it any more
+				c15DrainPublishes(c)
+				nc, note := c15Resume(b, c, in.Limit)
+				clients[ev.C] = nc
+				if note != "" && note != "no-stored-session" {
+					st.Note = "resume:" + note
+				}
+			}
+			st.Out = collect()
 		case "off":
 			b.Lock()
 			delete(b.clients, ev.C)
@@ -420,6 +569,8 @@ func c15Gen(r *verifh.Rand, i int) interface{} {
 		}
 		if r.Bool(1, 10) {
 			cl.Ghost = true
+		} else if r.Bool(1, 3) {
+			cl.Pers = true
 		}
 		in.Clients = append(in.Clients, cl)
 		if !cl.Ghost {
@@ -447,6 +598,9 @@ func c15Gen(r *verifh.Rand, i int) interface{} {
 			switch y := x - 20; {
 			case y < 2: // another SUBSCRIBE (also re-subscription with another QoS)
 				f := c15GenFilter(r)
+				if len(held[c]) > 0 && r.Bool(1, 2) {
+					f = held[c][r.Intn(len(held[c]))] // re-subscribe a held filter, often at another QoS
+				}
 				in.Events = append(in.Events, c15Event{K: "sub", C: c, Subs: []c15Sub{{F: f, Q: r.PickInt(0, 1, 1)}}})
 				held[c] = append(held[c], f)
 			case y < 5: // UNSUBSCRIBE, mostly of something held: routing state changes before later messages
@@ -510,7 +664,7 @@ func c15Gen(r *verifh.Rand, i int) interface{} {
 		case x < 19:
 			in.Events = append(in.Events, c15Event{K: "t", C: ids[r.Intn(len(ids))]})
 		default:
-			in.Events = append(in.Events, c15Event{K: r.Pick("off", "off", "on"), C: ids[r.Intn(len(ids))]})
+			in.Events = append(in.Events, c15Event{K: r.Pick("off", "off", "on", "resume", "resume"), C: ids[r.Intn(len(ids))]})
 		}
 	}
 	sort.Strings(ids)
